@@ -205,6 +205,8 @@ def run_sched(ck, h, m, rng, quick, sig="sched-ring"):
                         phase.append(p)
                     else:
                         written.append(p)
+                if not bad and int(st["k"]) > k:
+                    bad = "%s I-format APDUs sent and not acknowledged, k = %d" % (st["k"], k)
                 if not bad and written != accepted[:len(written)]:
                     bad = "responses written %s, accepted in the order %s" % (written[-4:], accepted[max(0, len(written) - 4):len(written) + 1])
                 if not bad and alive and int(st["n"]) + len(written) != len(accepted):
